@@ -379,3 +379,17 @@ package smf
 //@ requires s != nil && typeof(s.TimeFormat) == typeid(MetricTicks) && tcsOK(s.tempoChanges) && absTicks >= 0 && absTicks < 4294967296
 //@ modifies s.tempoChangesFinished, s.tempoChanges[:], any(TempoChange).AbsTimeMicroSec
 //@ ensures [P:C11] ((len(s.tempoChanges) == 0 || s.tempoChanges[0].AbsTicks > absTicks - 1) && durOf(tfQ(s), 120.0, uint32(absTicks)) >= 0.0 && durOf(tfQ(s), 120.0, uint32(absTicks)) < 9223372036854775808.0) ==> usIs(absTimeMicroSec, durOf(tfQ(s), 120.0, uint32(absTicks)))
+
+// the order handed to sort.Sort: a strict order on the tick (sort.Interface asks for a strict weak order; with
+// "<=" equal ticks would be reordered against their insertion order)
+//@ func (TempoChanges).Less
+//@ requires 0 <= a && a < len(t) && 0 <= b && b < len(t) && t[a] != nil && t[b] != nil
+//@ ensures [P:C11] result == (t[a].AbsTicks < t[b].AbsTicks)
+
+//@ func (TempoChanges).Swap
+//@ requires 0 <= a && a < len(t) && 0 <= b && b < len(t)
+//@ modifies t[:]
+//@ ensures [P:C11] t[a] == old(t[b]) && t[b] == old(t[a]) && forall i int :: (0 <= i && i < len(t) && i != a && i != b) ==> t[i] == old(t[i])
+
+//@ func (TempoChanges).Len
+//@ ensures [P:C11] result == len(t)
